@@ -182,6 +182,17 @@ CHECKS = {
     {"pkg": "./main", "test": "TestC17Env", "shards": {"quick": 16, "thorough": 16}},
   ],
  },
+ "C13": {
+  "engine": "E-HIST",
+  "rule": "exhaustive enumeration of payloads (part counts, lengths around the block and copy-buffer sizes, slice positions, read-buffer sizes, compression levels, separators, names, times) through the real encoder and decoder, of every truncation point of one payload and of wrong announced header lengths; each faulty case runs in a synctest bubble so that a decoder that never returns is detected; distinct = distinct cases",
+  "level": "Every case of the stated input space is executed on the real payload code and compared field by field and byte by byte.",
+  "note": "Bounds: see coverage.parts[].bound. Over real HTTP the same path is exercised by every E-ENV run (see the C13 HTTP part).",
+  "technique": "exhaustive input enumeration on the implementation (bounded model checking of the wire format), differential oracle encoder vs decoder",
+  "assumptions": ["gzip framing as applied by http.Client.Transmit / Server.routeData is reproduced in the harness"],
+  "parts": [
+    {"pkg": "./payload", "test": "TestC13", "shards": {"quick": 16, "thorough": 16}},
+  ],
+ },
 }
 
 NOT_APPLICABLE = {}
